@@ -17,7 +17,9 @@ from lib import synq as Q
 TECHNIQUE = ("structural rules over the expanded syntax of the two arm selectors (loop order, exit on first success, environment declared per arm and passed to "
              "matcher, guard and body) decided on lexically resolved bindings, path conditions and private helpers inlined at their call sites, "
              "statement-order/dominance rules for the arity and exhaustiveness tests (MIR), and field-use completeness (K6) of "
-             "every pattern traversal in interpreter/patterns.rs")
+             "every pattern traversal in interpreter/patterns.rs; finite verdict tables of the pattern matcher per comparison-mode constant "
+             "(path conditions evaluated for every variant of the mode enum, data/control dependence of each verdict on the matched value) joined with the "
+             "mode constants that reach the matcher from each arm selector through its wrappers")
 EXPLANATION = (
     "Decides structural clauses of C16 for execute_function_match_arms and match_expression: (R1) arms are tried in forward source order and the first "
     "success returns; (R2) the environment filled by the pattern matcher is created inside the arm loop (fresh per arm) and is the same variable handed to "
@@ -29,6 +31,12 @@ EXPLANATION = (
     ' (R7) both operands of every pattern/value zip in the matcher are plain forward iterators, and the suffix patterns are paired with the slice starting at len - suffix.len().'
     ' (R8) each match arm / function arm is tried against its own scratch environment; (R9) every *NonExhaustive* error is skipped only under an `arms.any(matches!(arm.pattern, Pattern::Wildcard))` flag - no wider catch-all predicate.'
     ' (R10) broadcasting a scalar function over a matrix applies it to every element of matrix_like_values(source) in storage order (one push per element, errors propagated) and reassembles with (shape[0], shape[1]) of the source.'
+    ' (R12) the comparison-mode constant that reaches the pattern matcher from the function-arm selector, from the state-machine arms and from the match-expression arms (explicitly or through mode-less wrappers) is one '
+    'under which every verdict the matcher makes from an evaluated expression pattern or a repeated variable depends on the matched value (finite table over the variants of the mode enum, '
+    'path conditions evaluated per variant), every recursive matcher call hands on its own mode parameter, and all match-expression sites use one mode; which arm then runs for which argument '
+    '(the behaviour itself) is not decided.'
+    ' (R13) in the pattern matcher every non-`false` verdict and every descent into the sub-patterns of a tagged pattern (a Pattern variant whose payload struct has an identifying field, '
+    'PatternTupleStruct.name - read off the ADT) lies behind a test that depends on that field and on the matched value; that the test is the right comparison is not decided.'
 )
 
 ARMS_RX = re.compile(r"\.(match_)?arms\b")
@@ -351,3 +359,7 @@ def run(F, rep, tier):
     S.broadcast_shape(F, rep, fns)
     from rules.pattern_arity import length_admissibility
     length_admissibility(F, rep, "C16-R11")
+    from rules import c16_mode
+    c16_mode.run(F, rep, fns)
+    from rules import c16_tag
+    c16_tag.run(F, rep, fns)
